@@ -883,7 +883,7 @@ func init() {
 	register(&Check{
 		ID: "C06", Level: "exploration", MinNontriv: 30,
 		Anchors: []string{"pkg/adaptation/adaptation.go", "pkg/adaptation/plugin.go", "pkg/api/event.go", "pkg/api/plugin.go"},
-		Rule:    "rig instances of 8 stub plugins each (masks: quick = empty, all, 13 singletons, 13 complements, 100 seeded random; thorough = all 8192), indices drawn from a small pool incl. equal ones, half of the plugins registering while traffic runs; random sequences of the 13 lifecycle calls from 1/4/16 caller goroutines under sync blocks, 2.5% of handlers veto; oracles over the unique-id handler log and the call/return log: exactly-once per subscribed active plugin, none otherwise, index order, one common order, no interleaving, real-time order, porcupine sequencer windows, own-result echo; plus two fixed scenarios per child: 60 plugins registering in descending index order while 6 callers relay events without sync blocks (at-most-once, index order, early plugins exactly once), and registration against a split / small state followed by an idle period of two request timeouts and all thirteen events; callers cancelling their own context during / before a request (nobody is dropped for that); distinct = masks covered plus distinct serialisation orders observed",
+		Rule:    "rig instances of 8 stub plugins each (masks: quick = empty, all, 13 singletons, 13 complements, 100 seeded random; thorough = all 8192), indices drawn from a small pool incl. equal ones, half of the plugins registering while traffic runs; random sequences of the 13 lifecycle calls from 1/4/16 caller goroutines under sync blocks, 2.5% of handlers veto; oracles over the unique-id handler log and the call/return log: exactly-once per subscribed active plugin, none otherwise, index order, one common order, no interleaving, real-time order, porcupine sequencer windows, own-result echo; plus two fixed scenarios per child: 60 plugins registering in descending index order while 6 callers relay events without sync blocks (at-most-once, index order, early plugins exactly once), and registration against a split / small state followed by an idle period of two request timeouts and all thirteen events; callers cancelling their own context during / before a request (nobody is dropped for that); the first request after a plugin left is one of create / update / stop; distinct = masks covered plus distinct serialisation orders observed",
 		Assumptions: []string{
 			"a plugin counts as active for a request iff the request's sync-block ticket is later than the plugin's Synchronize handler tick (the sync-block protocol makes this decidable)",
 			"relative order of plugins with equal indices is unspecified and not asserted",
